@@ -17,6 +17,7 @@ MUST_RAISE = [
     'sul-seq-not-an-integer', 'header-seq-not-an-integer', 'header-seq-reassigned-invalid', 'origin-ref-of-no-origin',
     'no-logical-file', 'status-fraction-not-float', 'missing-dataset-after-earlier-write', 'partial-data-after-earlier-write',
     'float-cast-out-of-range', 'origin-reference-shared-by-two-origins', 'float-cast-just-outside-range',
+    'reference-to-object-of-another-logical-file',
 ]
 FRINGE = ['empty-value-list', 'empty-text', 'empty-payload', 'single-row', 'width-1', 'origin-ref-0', 'name-255', 'ident-255',
           'text-20000', 'units-255', 'many-values-300', 'set-name-255', 'header-id-65', 'sul-id-60', 'empty-ident',
@@ -40,6 +41,8 @@ def cases(tier, seed):
     reps = 2 if tier == 'quick' else 25
     for c in MUST_RAISE + FRINGE:
         nrep = reps * (4 if c.startswith('window-') or c.startswith('list-to') or c.startswith('float-cast') else 1)   # (window classes: several sources x chunk sizes)
+        if c == 'reference-to-object-of-another-logical-file':
+            nrep = 8 * (1 if tier == 'quick' else 4)
         if c.startswith('float-cast-just-'):
             # enumerated: every (source float type, target integer type, value at the very edge of the target's range)
             nrep = sum(1 for x in gen.float_cast_boundaries() if x[3] == c.endswith('outside-range')) * (1 if tier == 'quick' else 2)
@@ -94,6 +97,36 @@ def inject(sp, c, r, k=0):
     if c == 'data-3d':
         ops[fch[-1]]['data']['shape'] = [n, 2, 2]
         return 'channel data'
+    if c == 'reference-to-object-of-another-logical-file':
+        # a second logical file with objects of its own; an attribute of THIS file's object refers to one of them (through
+        # every kind of reference attribute, incl. the channel's SOURCE, which takes an object of any type)
+        sp['lfs'].append({'fh_id': 'OTHER-LF'})
+        for o in ops:
+            if o['op'] in schema.TYPES and o.get('set_name') is None:
+                o['set_name'] = 'FIRST'
+        b0 = len(ops)
+        ops.append(gen.origin_op('OTHER-ORIGIN', lf=1, fsn=2)); ops[-1]['set_name'] = 'OTHER'
+        ops.append(gen.channel_op('OTHER-CH', '<f8', (n,), lf=1, fill={'kind': 'pos', 'tag': 9})); ops[-1]['set_name'] = 'OTHER'
+        ops.append(gen.frame_op('OTHER-FR', [b0 + 1], lf=1)); ops[-1]['set_name'] = 'OTHER'
+        for t in ('zone', 'axis', 'equipment', 'tool'):
+            ops.append({'op': t, 'lf': 1, 'name': 'OTHER-' + t.upper(), 'attrs': {}, 'set_name': 'OTHER'})
+        zi, ai, ei, ti = b0 + 3, b0 + 4, b0 + 5, b0 + 6
+        what = ['channel-source-equipment', 'channel-source-tool', 'channel-source-channel', 'channel-axis', 'parameter-zones',
+                'computation-source', 'group-object-list', 'tool-parts'][k % 8]
+        if what.startswith('channel-source'):
+            tgt = {'equipment': ei, 'tool': ti, 'channel': b0 + 1}[what.split('-')[-1]]
+            ops.append({'op': 'assign', 'lf': 0, 'target': fch[-1], 'target_op': 'channel', 'kw': 'source', 'part': 'value', 'value': {'$ref': tgt}})
+        elif what == 'channel-axis':
+            ops.append({'op': 'assign', 'lf': 0, 'target': fch[-1], 'target_op': 'channel', 'kw': 'axis', 'part': 'value', 'value': [{'$ref': ai}]})
+        elif what == 'parameter-zones':
+            ops.append({'op': 'parameter', 'lf': 0, 'name': 'INJ-P', 'set_name': 'FIRST', 'attrs': {'zones': [{'$ref': zi}], 'values': [1.0]}})
+        elif what == 'computation-source':
+            ops.append({'op': 'computation', 'lf': 0, 'name': 'INJ-C', 'set_name': 'FIRST', 'attrs': {'source': {'$ref': ti}}})
+        elif what == 'group-object-list':
+            ops.append({'op': 'group', 'lf': 0, 'name': 'INJ-G', 'set_name': 'FIRST', 'attrs': {'object_list': [{'$ref': zi}]}})
+        else:
+            ops.append({'op': 'tool', 'lf': 0, 'name': 'INJ-T', 'set_name': 'FIRST', 'attrs': {'parts': [{'$ref': ei}]}})
+        return what
     if c.startswith('float-cast-just-'):
         # the value sits exactly at the edge of the cast dtype's range, in a source type that holds it exactly
         combos = [x for x in gen.float_cast_boundaries() if x[3] == c.endswith('outside-range')]
